@@ -658,6 +658,19 @@ fn dump_fn<'tcx>(cx: &mut Cx<'tcx>, ldid: LocalDefId) -> J {
         }
     }
     f.push(("argc", J::i(body.arg_count as i64)));
+    // names of the generic type parameters in the order of the substitution list of a call to this function (parents first):
+    // lets the rule engine instantiate an inlined generic helper for the concrete types of its call site
+    {
+        let mut gens: Vec<J> = Vec::new();
+        let g = tcx.generics_of(did);
+        for i in 0..g.count() {
+            let p = g.param_at(i, tcx);
+            if matches!(p.kind, ty::GenericParamDefKind::Type { .. }) {
+                gens.push(J::s(p.name.to_string()));
+            }
+        }
+        f.push(("generics", J::Arr(gens)));
+    }
     let mut names: FxHashMap<usize, String> = FxHashMap::default();
     let mut vdi = Vec::new();
     for v in body.var_debug_info.iter() {
